@@ -248,6 +248,16 @@ func verifyCode(r *verifyReport, c *py.Code, nlines int) *codeReport {
 	}
 
 	// ---- abstract execution ----
+	// a block is pushed by a SETUP_* instruction and, in balanced code, popped before that instruction runs again: more live blocks than
+	// SETUP_* instructions (plus the handler blocks the VM itself pushes while one of them unwinds) means a loop path that re-enters a block it
+	// never left - the block stack would grow on every iteration (and this search would not end)
+	nsetup := 0
+	for _, pc := range order {
+		switch ins[pc].op {
+		case vm.SETUP_LOOP, vm.SETUP_EXCEPT, vm.SETUP_FINALLY, vm.SETUP_WITH:
+			nsetup++
+		}
+	}
 	seen := map[string]bool{}
 	var work []vState
 	push := func(s vState, from int32) {
@@ -291,6 +301,10 @@ func verifyCode(r *verifyReport, c *py.Code, nlines int) *codeReport {
 			cr.predicted[s.pc] = m
 		}
 		m[depthPair{d, len(s.blocks)}] = true
+		if len(s.blocks) > 2*nsetup+1 {
+			r.errf(c, s.pc, "block stack grows without bound: %d live blocks in code with %d SETUP_* instructions (a path re-enters a block it never left)", len(s.blocks), nsetup)
+			continue
+		}
 		step(r, c, cr, ins, s, in, push)
 	}
 	cr.nStates = len(seen)
